@@ -113,7 +113,13 @@ def run_codec_property(v, prop, ops, oracle, rule_extra="", known=None):
                     failing.append((x, label + r[2]))
             elif r:
                 failing.append((x, label + r))
+            d10 = tinfo(c, x).get("pow2") == "0"
             for op in ops:
+                if d10 and op in ("eps:0", "place", "load", "alloc:0", "tags", "cuts", "flips"):
+                    # known class D10 (a unit that is not a power of two): the outcome of eps-copy depends on
+                    # the absolute address modulo that unit, where the model is not meant to be faithful
+                    # (its theorems exclude the class by the hypothesis units_pow2)
+                    continue
                 if not agree(cc, x, op):
                     corr_bad.append((x, op) if not label else (x, op, cc))
         if nontrivial(c, x):
@@ -289,12 +295,15 @@ def oracle_c15(c, x):
     line = c.iobs.get((x.cid, "tags"), "")
     if "TAGROWS-MISMATCH" in line:
         return "the tags recorded in the schema do not match the tags the type writes: %s" % line[:200]
+    d10 = impl_need(c, x) is None
     for part in line.split(" "):
         if not part.startswith("@"):
             continue
         pos, codes = part.split(":", 1)
         for code in codes.split(","):
             val, res = code.split(">", 1)
+            if d10 and res == "E:InvalidTag:%s//E:AlignmentError" % val:
+                continue     # known class D10: eps-copy is refused on alignment before the tag is read
             if res != "E:InvalidTag:%s" % val:
                 return "foreign tag %s at %s gave %s instead of InvalidTag(%s)" % (val, pos, res[:120], val)
     # every written tag maps back to its variant (both modes)
